@@ -27,6 +27,7 @@ META = {
         "distinct_nontrivial = distinct terminal per-message logs."
         " Failing dependencies: a dependency of message 0 raises (always / only at its first resolution) after a suspension point while message 1 enters processing; whatever is resolved for message 0 before, after or again still observes message 0, and an error result is stored under its id."
         " Four messages with at most three in processing (contexts of finished executions must not reach later ones)."
+        " Concurrent messages whose `v: Any` keyword arguments are equal but of different type or sign (1/True/1.0, 0/False/-0.0): each function receives its own."
     ),
     "assumptions": [
         "the message a piece of dependency code belongs to is identified by the asyncio task running it (the callback task)",
@@ -61,6 +62,12 @@ class C06World(DepWorld):
                 unc = self._uncached_path(name)
                 key = "C06:D3-uncached-dependency-sees-foreign-context" if unc else "C06:foreign-context"
                 self.flag(key, f"{'task function' if name == '<task>' else 'dependency ' + name} of message {i} observed Context of {seen} (expected {want}); in processing {self.cb_open}")
+        elif kind == "ARGV":
+            i = ev[1]
+            sent = self.msgs[i]["kw"]["v"]
+            self.checked += 1
+            if (ev[2], ev[3]) != (repr(sent), type(sent).__name__):
+                self.flag("C06:argument-of-another-message", f"task function of message {i} was sent v={sent!r} ({type(sent).__name__}) and received {ev[2]} ({ev[3]}); in processing {self.cb_open}")
         elif kind == "SAVE_B":
             i = ev[1]
             self.checked += 1
@@ -147,6 +154,12 @@ def scenarios(tier: str) -> List[Dict[str, Any]]:
                 amsgs = [dict(m, ack="async", gates=["ack"]) for m in msgs]
                 out.append({"A": 3, "P": 1, "N": None, "stream": "finite", "stop": False, "level": 0, "deps": g, "msgs": amsgs,
                             "ack_type": "when_received", "mws": [{"hooks": {"pre_execute": "gated", "post_execute": "gated"}}]})
+    # concurrent messages whose `v: Any` arguments are equal as values but not as objects / types
+    # (1, True, 1.0; 0, False, -0.0): each function receives what its own message carried
+    gq = {"roots": ["g"], "task_ctx": True, "nodes": {"g": {"style": "aplain", "children": [], "gate": True, "cache": True}}}
+    for vals in ((1, True, 1.0), (True, 1), (0.0, False, 0), (-0.0, 0.0), ("1", 1)):
+        msgs = [{"task": "dep", "body": "immediate", "value": f"R{i}", "labels": {"who": f"w{i}"}, "kw": {"v": v}} for i, v in enumerate(vals)]
+        out.append({"A": 3, "P": 1, "N": None, "stream": "finite", "stop": False, "level": 0, "deps": gq, "msgs": msgs})
     # four messages, at most three in processing: contexts handed from finished executions to later ones
     for order in (("g", "p"), ("p", "g")):
         for k in ((("plain", False), ("agen", False)) if tier == "quick" else KINDS):
